@@ -138,6 +138,10 @@ func DetectAnchoredLiteral(re *syntax.Regexp) *AnchoredLiteralInfo {
 		} else {
 			// After wildcard - must be charclass+ or nothing
 			if isCharClassPlus(sub) && i == suffixIdx-1 {
+				if !isByteTableClass(sub.Sub[0]) {
+					// Class needs rune decoding - not eligible for the byte table
+					return nil
+				}
 				// Charclass bridge right before suffix
 				charClassTable = buildCharClassTable(sub.Sub[0])
 				charClassMin = 1 // Plus requires at least 1
@@ -214,11 +218,11 @@ func extractLiteral(re *syntax.Regexp) []byte {
 	if re.Op != syntax.OpLiteral || re.Flags&syntax.FoldCase != 0 {
 		return nil
 	}
-	// Convert runes to bytes (assuming ASCII for now)
+	// Convert runes to their UTF-8 bytes
 	result := make([]byte, 0, len(re.Rune))
 	for _, r := range re.Rune {
-		if r > 255 {
-			// Non-ASCII literal - still valid but needs UTF-8 encoding
+		if r > 127 {
+			// Non-ASCII literal (including U+0080-U+00FF, which are 2 bytes in UTF-8)
 			// For simplicity, encode as UTF-8
 			buf := make([]byte, 4)
 			n := encodeRuneToBytes(r, buf)
@@ -254,6 +258,21 @@ func encodeRuneToBytes(r rune, buf []byte) int {
 	buf[2] = byte(0x80 | ((r >> 6) & 0x3F))
 	buf[3] = byte(0x80 | (r & 0x3F))
 	return 4
+}
+
+// isByteTableClass reports whether a CharClass node can be represented by the
+// 256-entry byte table of buildCharClassTable. The non-ASCII part of the class
+// must be all-or-nothing: bytes 0x80-0xFF then stand for "part of some non-ASCII
+// rune (or an invalid byte, i.e. U+FFFD)". Partial ranges such as [é] or [α-ω]
+// would need rune decoding.
+func isByteTableClass(re *syntax.Regexp) bool {
+	for i := 0; i+1 < len(re.Rune); i += 2 {
+		lo, hi := re.Rune[i], re.Rune[i+1]
+		if hi > 127 && (lo > 0x80 || hi < 0x10FFFF) {
+			return false
+		}
+	}
+	return true
 }
 
 // buildCharClassTable builds a 256-byte lookup table for a CharClass node.
